@@ -289,6 +289,126 @@ theorem gssvx_solves (o : Opts) (M : Mach Rat) (n nrhs ldb ldx : Nat) (es : List
   rw [unscaleX_cell notran q n nrhs ldx X2 e.r e.c k j hk hx hj hX2s,
     setCols_cell n nrhs ldx X1 ycol k j hk hx hj hX1s hk']
 
+/-- the statement mirror of the C code (`documented := false`) differs from the documented behaviour
+only for SLU_NR with CONJ, where it solves the TRANSPOSED system `A' X = B` (operator `N` on the
+stored A') instead of `A^H X = B` — the open finding recorded in known_findings.json.  On every other
+combination the two models are the same function. -/
+theorem gssvx_impl_eq_documented (o : Opts) (M : Mach Rat) (n nrhs ldb ldx : Nat) (es : List (Entry K))
+    (r0 c0 : Nat → Rat) (B X : Array K) (facOk : Bool) (inner : Trans → Array K → Array K)
+    (h : ¬ (o.rowStored = true ∧ o.trans = .C)) :
+    gssvx false o M n nrhs ldb ldx es r0 c0 B X facOk inner = gssvx true o M n nrhs ldb ldx es r0 c0 B X facOk inner := by
+  have hs : ∀ b, solveCol false o inner b = solveCol true o inner b := by
+    intro b
+    simp only [solveCol, Bool.false_eq_true, false_and, if_false, true_and]
+    rw [if_neg h]
+  simp only [gssvx, hs]
+
+/-- **C05 (refinement, exact arithmetic).** If the inner `gstrs` is correct and `gsrfs` returns an
+exact solution unchanged (`refine_noop_exact` below), the assembled inner solver is correct with
+refinement on as well as off — so `gssvx_solves` covers every IterRefine setting. -/
+theorem innerOf_correct (n : Nat) (esEq : List (Entry K)) (refineOn : Bool)
+    (gstrs : Trans → Array K → Array K) (gsrfs : Trans → Array K → Array K → Array K)
+    (hg : InnerCorrect n esEq gstrs)
+    (hr : ∀ tr b, b.size = n → gsrfs tr b (gstrs tr b) = gstrs tr b) :
+    InnerCorrect n esEq (innerOf refineOn gstrs gsrfs) := by
+  intro tr b hb
+  have : innerOf refineOn gstrs gsrfs tr b = gstrs tr b := by
+    simp only [innerOf]
+    split
+    · exact hr tr b hb
+    · rfl
+  rw [this]
+  exact hg tr b hb
+
 end exact
+
+/-! ### refinement leaves an exact solution alone -/
+
+open Slu.Refine in
+/-- **C05 (one refinement pass is a no-op on an exact solution).** For the bit-mirror model of the
+`while (1)` loop of `[sdcz]gsrfs` (`Slu.Refine.refineLoop`, any arithmetic record, any fuel, any
+state of `lstres`/`count`): if the residual the routine forms for `x` is exactly zero, the solver maps
+the zero vector to the zero vector (any linear solver does) and adding zero changes nothing, then
+the loop returns `x` itself, however many passes its stopping rule makes. -/
+theorem refine_noop_exact {K : Type} [Inhabited K] (Ar : Arith K Rat) (tr : Trans) (A : CSC K) (safmin eps : Rat)
+    (solve : Array K → Array K) (b x : Array K)
+    (hres : ∀ i, (resid Ar tr A x b).getD i Ar.kzero = Ar.kzero)
+    (hlin : ∀ w : Array K, (∀ i, w.getD i Ar.kzero = Ar.kzero) → ∀ i, (solve w).getD i Ar.kzero = Ar.kzero)
+    (hadd : ∀ v : K, Ar.add v Ar.kzero = v) :
+    (∀ fuel lstres count, (refineLoop Ar tr A safmin eps solve b fuel x lstres count).1 = x) ∧
+    (refineCol Ar tr A safmin eps solve b x).1 = x := by
+  have hx' : ((Array.range x.size).map fun i =>
+      Ar.add (x.getD i Ar.kzero) ((solve (resid Ar tr A x b)).getD i Ar.kzero)) = x := by
+    apply Array.ext
+    · simp
+    · intro i h1 h2
+      simp only [Array.getElem_map, Array.getElem_range]
+      rw [hlin _ hres i, hadd]
+      simp [Array.getD_eq_getD_getElem?, Array.getElem?_eq_getElem h2]
+  have hloop : ∀ fuel lstres count, (refineLoop Ar tr A safmin eps solve b fuel x lstres count).1 = x := by
+    intro fuel
+    induction fuel with
+    | zero => intro l c; rfl
+    | succ f ih =>
+      intro l c
+      simp only [refineLoop]
+      split
+      · rw [hx']; exact ih _ _
+      · rfl
+  exact ⟨hloop, hloop _ _ _⟩
+
+/-! ### the hypotheses are satisfiable; the clauses on concrete data -/
+
+section examples
+
+def exM : Mach Rat := { sml := 1 / 1000000, big := 1000000, thresh := 1 / 10, small := 1 / 1000, large := 1000 }
+
+/-- 1 x 1 real system `4 x = b`: the exact inner solver -/
+def exInner : Trans → Array Rat → Array Rat := fun _ b => b.map (· / 4)
+
+example : InnerCorrect 1 (eqEntries [⟨0, 0, (4 : Rat)⟩] (equilStep true 1 [⟨0, 0, (4 : Rat)⟩] exM (fun _ => 0) (fun _ => 0)).aout) exInner := by
+  have h : (equilStep true 1 [⟨0, 0, (4 : Rat)⟩] exM (fun _ => 0) (fun _ => 0)).aout = [4] := by decide +kernel
+  rw [h]
+  intro tr b hb
+  refine ⟨by simp [exInner, hb], ?_⟩
+  intro i hi
+  obtain rfl : i = 0 := by omega
+  have h0 : 0 < b.size := by omega
+  cases tr <;>
+    simp [opMul, opTerm, eqEntries, opOfTrans, exInner, HasConj.conj, Array.getD_eq_getD_getElem?, Array.getElem?_eq_getElem h0] <;>
+    ring
+
+/-- 1 x 1 complex system `i x = b` (`A^H = -i`): the exact inner solver for N, T and C -/
+def exInnerC : Trans → Array (Cx Rat) → Array (Cx Rat) := fun tr b =>
+  b.map fun z => z * (match tr with | .C => (⟨0, 1⟩ : Cx Rat) | _ => ⟨0, -1⟩)
+
+example : InnerCorrect 1 (eqEntries [⟨0, 0, (⟨0, 1⟩ : Cx Rat)⟩] (equilStep false 1 [⟨0, 0, (⟨0, 1⟩ : Cx Rat)⟩] exM (fun _ => 0) (fun _ => 0)).aout) exInnerC := by
+  rw [equilStep_noequil]
+  intro tr b hb
+  refine ⟨by simp [exInnerC, hb], ?_⟩
+  intro i hi
+  obtain rfl : i = 0 := by omega
+  have h0 : 0 < b.size := by omega
+  cases tr <;>
+    simp [opMul, opTerm, eqEntries, opOfTrans, exInnerC, HasConj.conj, Array.getD_eq_getD_getElem?, Array.getElem?_eq_getElem h0] <;>
+    ext <;> simp
+
+/-- a badly row-scaled 2 x 2 matrix (column-major storage): `equed = R`, `R = (1/2000, 1/4)` -/
+def exEs : List (Entry Rat) := [⟨0, 0, 1000⟩, ⟨1, 0, 3⟩, ⟨0, 1, 2000⟩, ⟨1, 1, 4⟩]
+
+example : (equilStep true 2 exEs exM (fun _ => 0) (fun _ => 0)).equed = .R := by decide +kernel
+example : (equilStep true 2 exEs exM (fun _ => 0) (fun _ => 0)).aout = [1 / 2, 3 / 4, 1, 1] := by decide +kernel
+/-- NOTRANS, column storage: B is multiplied by R; TRANS: `equed = R` leaves B alone -/
+example : scaleB true .R 2 1 3 #[(8 : Rat), 8, 5] (fun i => if i = 0 then 1 / 2000 else 1 / 4) (fun _ => 7) = #[1 / 250, 2, 5] := by
+  decide +kernel
+example : scaleB false .R 2 1 3 #[(8 : Rat), 8, 5] (fun i => if i = 0 then 1 / 2000 else 1 / 4) (fun _ => 7) = #[8, 8, 5] := by
+  decide +kernel
+example : (0 : Rat) < exM.sml ∧ exM.sml ≤ exM.big := by decide +kernel
+example : InRange 2 exEs := by
+  intro e he
+  simp only [exEs, List.mem_cons, List.not_mem_nil, or_false] at he
+  rcases he with rfl | rfl | rfl | rfl <;> decide
+
+end examples
 
 end Slu.Gssvx
